@@ -763,6 +763,8 @@ func rulesC09(w *World, r *Report) {
 	w.ruleLenReader(r, "C09.R2 length readers", "string")
 	w.ruleLenReader(r, "C09.R2 length readers", "binary")
 	w.rulePayloadUnits(r, "C09.R1 payload read in the unit the length counts")
+	w.ruleWrapperForwards(r, "C09.R1 read wrappers forward the decoder", "string")
+	w.ruleWrapperForwards(r, "C09.R1 read wrappers forward the decoder", "binary")
 	w.ruleChunkBuffers(r, "C09.R2 chunk buffers sized per chunk")
 	// R3 is generated because the encoder has an N form for a present value
 	c := w.codecs()["string"]
